@@ -47,15 +47,21 @@ GQ(metric) == IF metric = "rotk" THEN Rot3 ELSE IF metric = "blockk" THEN RotB E
 \* frequencies k_i (rationals) and the phase advance of coordinate i per unit of the time index j, in multiples of
 \* theta.  For "diaghalf" = diag(4, 1, 4) the frequencies are 1/2, 1, 1/2 and the time unit is 2 theta (phases 1, 2, 1
 \* per unit): non-commensurate with a reduction of the time modulo 2 pi.
+\* "scalhalf" = 4 I and "scalk2" = I / 4 are scaled-identity metrics (frequency 1/2 with time unit 2 theta, and
+\* frequency 2 with time unit theta): the isotropic case, handed to the code as a (Positive)ScaledIdentityMatrix.
 GK(metric) == CASE metric = "identity" -> << R(1), R(1), R(1) >>
                 [] metric = "diagk2" -> << R(1), R(2), R(1) >>
                 [] metric = "diaghalf" -> << <<1, 2>>, R(1), <<1, 2>> >>
                 [] metric = "blockk" -> << R(2), R(1), R(2) >>
+                [] metric = "scalhalf" -> << <<1, 2>>, <<1, 2>>, <<1, 2>> >>
+                [] metric = "scalk2" -> << R(2), R(2), R(2) >>
                 [] OTHER -> << R(1), R(2), R(3) >>
 GPh(metric) == CASE metric = "identity" -> <<1, 1, 1>>
                  [] metric = "diagk2" -> <<1, 2, 1>>
                  [] metric = "diaghalf" -> <<1, 2, 1>>
                  [] metric = "blockk" -> <<2, 1, 2>>
+                 [] metric = "scalhalf" -> <<1, 1, 1>>
+                 [] metric = "scalk2" -> <<2, 2, 2>>
                  [] OTHER -> <<1, 2, 3>>
 GMetric(metric) == MMul(GQ(metric), MMul(MDiag([i \in 1..N |-> QDiv(R(1), QMul(GK(metric)[i], GK(metric)[i]))]), MTranspose(GQ(metric))))
 
